@@ -331,3 +331,19 @@ Proof.
     exists (pre ++ pre'), rest'. split; [rewrite E at 1; rewrite app_assoc; reflexivity | apply all_rejected_app; assumption].
   - intros H. exfalso. exact (C H).
 Qed.
+
+(** a response accepted during try k (k = number of transmissions made) arrived before that try's
+    deadline, and the transmissions made are exactly the first k of the schedule *)
+Theorem got_within_try : forall n s tau cancel close ds,
+  result (run_call false n s tau cancel close ds) = Got ->
+  let r := run_call false n s tau cancel close ds in
+  transmissions r = sched (length (transmissions r)) s tau /\ end_time r < endt (length (transmissions r)) s tau.
+Proof.
+  induction n as [|n IH]; intros s tau cancel close ds; cbn [run_call]; [discriminate|].
+  pose proof (try_bounded ds (s + tau) tau cancel close) as B.
+  pose proof (try_consumes ds (s + tau) tau cancel close) as C.
+  destruct (try false (s + tau) tau cancel close ds) as [t|t rest|t o]; cbn [result end_time transmissions length].
+  - intros _. cbn [sched endt]. split; [reflexivity | exact B].
+  - subst t. intros H. destruct (IH _ _ _ _ _ H) as [E L]. cbn [sched endt]. split; [rewrite <- E; reflexivity | exact L].
+  - intros H. exfalso. exact (C H).
+Qed.
